@@ -16,8 +16,16 @@ EXTRA = [
                ["c.html", "{% extends 'b.html' %}{% block c %}[{{ super() }}]{{ x | upper }}{% endblock %}"]],
      {"op": "render_block", "name": "c.html", "block": "c"}),
     ("component", [["k.html", "{% component Card(title, n=2) %}<h1>{{ title }}</h1>{{ body }}{{ n }}{% endcomponent Card %}"]],
-     {"op": "render_component", "name": "Card", "body": "<i>b</i>", "auto": True}),
+     {"op": "render_component", "name": "Card", "body": "<i>b</i>", "auto": True, "ctx": {"title": "T&t<"}}),
     ("str", [["inc.html", "I{{ x }}"]], {"op": "render_str", "src": "S{{ x }}{% include 'inc.html' %}{% filter upper %}{{ x }}{% endfilter %}", "auto": True}),
+    # a block the entry template only INHERITS, a nested one, and one reached through two levels
+    ("inherited-block", [["b.html", "A{% block c %}<{{ x }}>{% endblock %}{% block d %}D{{ x }}{% block e %}E{{ xs }}{% endblock %}{% endblock %}Z"],
+                         ["c.html", "{% extends 'b.html' %}{% block c %}[{{ super() }}]{% endblock %}"]], {"op": "render_block", "name": "c.html", "block": "d"}),
+    ("inherited-nested-block", [["b.html", "A{% block d %}D{{ x }}{% block e %}E{{ xs }}{% endblock %}{% endblock %}Z"], ["c.html", "{% extends 'b.html' %}"],
+                                ["g.html", "{% extends 'c.html' %}"]], {"op": "render_block", "name": "g.html", "block": "e"}),
+    # maps built while rendering, with keys of several kinds, printed whole: the text must not depend on the map instance
+    ("mixed-key-map", [["m.html", "{% set m = {true: x, 1: x, 0: xs, false: 2, 'k': x, 3: 3, 'a': 4, 2: 5} %}{{ m }}|{% set n = {...m, 7: x, 'z': 1} %}{{ n }}|{{ [m, n] }}"]],
+     {"op": "render", "name": "m.html"}),
     ("capture", [["p.html", "{% set v %}a{{ x }}b{% endset %}{{ v }}{{ v | safe }}{% for c in x %}{{ c }}{% endfor %}"]], {"op": "render", "name": "p.html"}),
 ]
 ECTX = {"x": "<&é\">", "xs": [1, 2, 3], "title": "T&t"}
@@ -49,6 +57,8 @@ def run(tier):
             C.violation(dict(key, kind="panic"), "panic rendering %s" % src, {"result": rr})
             continue
         if not a.get("ok"):
+            if any(src == e[0] for e in EXTRA):
+                C.violation(dict(key, kind="setup"), "the extra template %s does not render: %s" % (src, (a.get("msg") or a.get("disp", ""))[:150]), {"result": rr})
             continue
         full = b.get("accepted")
         if not b.get("ok") or full != a.get("out"):
